@@ -45,4 +45,4 @@ def run(rec):
         rec.encoded(fn)
     text, conds = gen(rec.tier, rec.seed)
     mod = pysym.write_module("hgen_C17", text)
-    pysym.run_conditions(rec, mod, conds, default_timeout=120)
+    pysym.run_auto(rec, mod, conds, default_timeout=120)
